@@ -122,6 +122,23 @@ def BytesIO.read (b : BytesIO) (n : Int) : List Nat × BytesIO :=
   let out := if n < 0 then b.data.drop b.pos else (b.data.drop b.pos).take n.toNat
   (out, { b with pos := b.pos + out.length })
 
+/-- `BytesIO.write(b)`: the bytes overwrite from the cursor on, the cursor moves behind them -/
+def BytesIO.write (b : BytesIO) (d : List Nat) : BytesIO :=
+  { data := b.data.take b.pos ++ List.replicate (b.pos - b.data.length) 0 ++ d ++ b.data.drop (b.pos + d.length), pos := b.pos + d.length }
+/-- `BytesIO.truncate(n)`: the contents are cut to `n` bytes, the cursor stays where it is -/
+def BytesIO.truncate (b : BytesIO) (n : Int) : BytesIO := { b with data := b.data.take n.toNat }
+
+/-- ASCII whitespace as `bytes.split()` sees it -/
+def isBWs (b : Nat) : Bool := b = 32 || (9 ≤ b && b ≤ 13)
+/-- `b.split()` for bytes: the maximal runs of non-whitespace bytes -/
+def bytesSplitWs : List Nat → List (List Nat)
+  | [] => []
+  | c :: cs =>
+    if isBWs c then bytesSplitWs cs
+    else match bytesSplitWs cs with
+      | [] => [[c]]
+      | w :: ws => if (match cs with | d :: _ => isBWs d | [] => true) then [c] :: w :: ws else (c :: w) :: ws
+
 /-- `STRAND_STR[strand]` style lookup in a tuple literal (negative index wraps, as in Python) -/
 def tupleGet {α : Type} (t : List α) (i : Int) : R α := pyGet t i
 
